@@ -183,6 +183,21 @@ Theorem C14_connection_idempotent_create : forall cc (a b : decl) arg (who : boo
   let w1 := fst (fst (world_step cc a b {| c_arg := arg; c_who := who; c_op := OCreate true cj ci |} w)) in
   world_step cc a b {| c_arg := arg; c_who := who; c_op := OCreate true cj' ci' |} w1 = (w1, false, None).
 Proof. exact world_create_idem. Qed.
+(* sqlmeta.addColumn / delColumn(changeSchema, connection=...): class and ADDRESSED database make exactly the
+   step of the evolution machine of C14_evolution_inv; every other database is left as it was -- one step, and
+   any history *)
+Theorem C14_connection_evolution_step : forall cc arg op w,
+  let c := route cc arg in
+  let r := evo_step {| e_decl := ew_decl w; e_db := get c (ew_dbs w) |} op in
+  ew_decl (fst (evo_world_step cc arg op w)) = e_decl (fst r)
+  /\ get c (ew_dbs (fst (evo_world_step cc arg op w))) = e_db (fst r)
+  /\ snd (evo_world_step cc arg op w) = snd r
+  /\ forall c', c' <> c -> get c' (ew_dbs (fst (evo_world_step cc arg op w))) = get c' (ew_dbs w).
+Proof. exact evo_world_step_spec. Qed.
+Theorem C14_connection_evolution_frame : forall cc ops w c,
+  (forall p, In p ops -> route cc (fst p) <> c) ->
+  get c (ew_dbs (evo_world_run cc ops w)) = get c (ew_dbs w).
+Proof. exact evo_world_run_frame. Qed.
 (* tableExists(connection=...) answers for the addressed database and changes nothing *)
 Theorem C14_connection_exists : forall cc (a b : decl) arg (who : bool) w,
   world_step cc a b {| c_arg := arg; c_who := who; c_op := OExists |} w
@@ -365,6 +380,8 @@ Print Assumptions C14_connection_arg_wins.
 Print Assumptions C14_connection_idempotent_drop.
 Print Assumptions C14_connection_idempotent_create.
 Print Assumptions C14_connection_exists.
+Print Assumptions C14_connection_evolution_step.
+Print Assumptions C14_connection_evolution_frame.
 Print Assumptions C14_evolution_inv.
 Print Assumptions C14_evolution_refused.
 Print Assumptions C14_evolution_index_refuted.
